@@ -234,20 +234,29 @@ func c16SameSeq(a, b []string) bool {
 	return true
 }
 
-// inDomain: single track, not format 1, total ticks < 2^32, end-of-track at most as the last event
+// inDomain: single track, not format 1, end-of-track at most as the last event, and every gap between consecutive
+// events of one resulting track (non-channel events; each channel) below 2^32 ticks, so that the absolute ticks are
+// expressible as uint32 deltas at all. (The Lean theorems assume the stronger "total < 2^32"; beyond it the oracle
+// judges the implementation alone and the model is compared as everywhere.)
 func c16InDomain(s *c16Src) bool {
 	if s.format == 1 || len(s.tracks) != 1 {
 		return false
 	}
-	var total uint64
+	var abs uint64
+	last := map[int]uint64{}
 	t := s.tracks[0]
 	for i, e := range t {
-		total += uint64(e.Delta)
+		abs += uint64(e.Delta)
 		if i < len(t)-1 && c16IsEOT(e.Message) {
 			return false
 		}
+		ch := c16Chan(e.Message) // the source's end-of-track travels with the non-channel events
+		if abs-last[ch] >= 1<<32 {
+			return false
+		}
+		last[ch] = abs
 	}
-	return total < 1<<32
+	return true
 }
 
 // c16Oracle judges the result of the conversion of an in-domain source against the property text.
@@ -634,7 +643,21 @@ func genC16(r *Rng, tier string, emit func(Case)) {
 			t := c16Track(r, tier, tags)
 			target := uint64(1<<32) + uint64(r.Pick(0, 1, 2, 1000, 1<<31, 1<<32-1, 1<<32, 1<<33))
 			if c16Stretch(r, t, target) {
-				tags["outside:total>=2^32"] = true
+				tags["total>=2^32"] = true
+			}
+			src.tracks = append(src.tracks, t)
+		case k < 27: // a long piece: total ticks >= 2^32 although every gap on every resulting track stays far below it
+			t := c16Track(r, tier, tags)
+			if len(t) >= 20 {
+				step := uint64(1<<32+uint64(r.Pick(0, 1, 1<<28, 1<<31, 1<<32)))/uint64(len(t)) + 1
+				for j := range t {
+					if uint64(t[j].Delta)+step < 1<<28 {
+						t[j].Delta += uint32(step)
+					} else {
+						t[j].Delta = 1<<28 - 1 - uint32(r.Intn(3))
+					}
+				}
+				tags["long-piece(total>=2^32,small-gaps)"] = true
 			}
 			src.tracks = append(src.tracks, t)
 		case k < 40: // total ticks just below 2^32
